@@ -66,7 +66,8 @@ func refMatch(f, t []byte) bool {
 func verifFilterBytes(key string, n int) []byte {
 	b := verifBytes(key, n)
 	for _, c := range b {
-		ok := verifOr(verifOr(c == '/', c == '+'), verifOr(c == '#', verifOr(c == 'a', c == 'b')))
+		// two ordinary characters, one of them '$' (only special at the very beginning of a topic name, which is excluded below)
+		ok := verifOr(verifOr(c == '/', c == '+'), verifOr(c == '#', verifOr(c == 'a', c == '$')))
 		verifAssume(ok)
 	}
 	return b
@@ -75,7 +76,10 @@ func verifFilterBytes(key string, n int) []byte {
 func verifTopicBytes(key string, n int) []byte {
 	b := verifBytes(key, n)
 	for _, c := range b {
-		verifAssume(verifOr(c == '/', verifOr(c == 'a', c == 'b')))
+		verifAssume(verifOr(c == '/', verifOr(c == 'a', c == '$')))
+	}
+	if n > 0 {
+		verifAssume(b[0] != '$') // topic names beginning with '$' are outside the statement (MQTT 4.7.2)
 	}
 	return b
 }
